@@ -186,6 +186,36 @@ void segCase(const std::string& what, const char* ver, const Mesh& mesh, const S
 				tset2.insert(k);
 			}
 			if (!checkSegmentation(s, sp, label2, tset2, what + fmt(" [%zu vertices deleted]", del.size()), "after-vertex-deletion")) return;
+			// a second deletion on the same in-memory shape
+			size_t nv2 = mesh.verts.size() - del.size();
+			if (nv2 > 3) {
+				std::vector<uint16_t> del2;
+				for (uint16_t i = 0; i < nv2; i++)
+					if (rng.coin(5)) del2.push_back(i);
+				if (!del2.empty() && del2.size() < nv2) {
+					nif.DeleteVertsForShape(s, del2);
+					std::vector<int> c2(nv2);
+					int d2 = 0;
+					size_t dj = 0;
+					for (size_t v = 0; v < nv2; v++) { if (dj < del2.size() && del2[dj] == v) { c2[v] = -1; dj++; } else c2[v] = d2++; }
+					std::map<Key, int> label3;
+					std::multiset<Key> tset3;
+					for (auto& kv : label2) {
+						auto [a, b, c] = kv.first;
+						if (c2[a] < 0 || c2[b] < 0 || c2[c] < 0) continue;
+						Key k{(uint16_t)c2[a], (uint16_t)c2[b], (uint16_t)c2[c]};
+						label3[k] = kv.second;
+					}
+					for (auto& k0 : tset2) {
+						auto [a, b, c] = k0;
+						if (c2[a] < 0 || c2[b] < 0 || c2[c] < 0) continue;
+						tset3.insert(Key{(uint16_t)c2[a], (uint16_t)c2[b], (uint16_t)c2[c]});
+					}
+					if (!checkSegmentation(s, sp, label3, tset3, what + fmt(" [second deletion of %zu vertices]", del2.size()), "after-second-vertex-deletion")) return;
+					label2 = label3;
+					tset2 = tset3;
+				}
+			}
 			NifFile cp(nif);
 			std::string bytes = saveNif(cp, false);
 			NifFile re;
